@@ -119,7 +119,7 @@ func runC08(r *ev.Run) {
 	if r.Thorough() {
 		depth = 4
 	}
-	r.Rule = fmt.Sprintf("every sequence of length <=%d (quick tier: every sequence of length 2, and of length 3 over the 8 operations that move pages, roots or definitions) over an alphabet of %d write transactions committed by a real SQLite connection in another process (insert, update, delete, bulk insert growing the file past its size at Open, delete+VACUUM shrink, VACUUM to another page size, create/drop table, create/drop index, ALTER TABLE ADD COLUMN, drop+recreate a table under the same name, WITHOUT ROWID change, incremental_vacuum) from 3 base databases (8 pages, auto_vacuum; 300+ pages > the 100 page cache with sequences one step shorter); handles opened at depth 0 and at every later depth, plus at every depth two handles whose first transaction comes only after the next commit (one starting with the high level API, one with RLock + low level reads) and one opened at depth 0 that is first read after the last commit; the sequences of length <=2 (all, thorough) are run again with a writer that uses synchronous=OFF and, after every commit, opens its next transaction at once and leaves it open while the handles read (RESERVED lock, journal header already complete); after every step every awake handle is read through the high level API and through the low level API inside RLock/RUnlock, twice; oracle: equals SQLite's dump of the file at that moment and a freshly opened handle's dump. non-trivial = sequences containing a write that changes the file", depth, len(c08Alphabet))
+	r.Rule = fmt.Sprintf("every sequence of length <=%d (quick tier: every sequence of length 2, and of length 3 over the 8 operations that move pages, roots or definitions) over an alphabet of %d write transactions committed by a real SQLite connection in another process (insert, update, delete, bulk insert growing the file past its size at Open, delete+VACUUM shrink, VACUUM to another page size, create/drop table, create/drop index, ALTER TABLE ADD COLUMN, drop+recreate a table under the same name, WITHOUT ROWID change, incremental_vacuum) from 3 base databases (8 pages, auto_vacuum; 300+ pages > the 100 page cache with sequences one step shorter); handles opened at depth 0 and at every later depth, plus at every depth two handles whose first transaction comes only after the next commit (one starting with the high level API, one with RLock + low level reads) and one opened at depth 0 that is first read after the last commit; the sequences of length <=2 (all, thorough) are run again with a writer that uses synchronous=OFF and, after every commit, opens its next transaction at once and leaves it open while the handles read (RESERVED lock, journal header already complete); one handle whose first call after every commit is Columns() of every table (compared with a fresh handle; dropped tables must be unknown); after every step every awake handle is read through the high level API and through the low level API inside RLock/RUnlock, twice; oracle: equals SQLite's dump of the file at that moment and a freshly opened handle's dump. non-trivial = sequences containing a write that changes the file", depth, len(c08Alphabet))
 	r.Set("depth", depth)
 	dir := ev.TmpDir("c08")
 	defer os.RemoveAll(dir)
@@ -288,6 +288,11 @@ func c08Sequence(r *ev.Run, p *Peer, dir string, w, n int, baseName string, base
 		return true
 	}
 	changed := false
+	colsFirst, _ := OpenEnv(path)
+	colsFirstKnew := map[string]bool{}
+	if colsFirst != nil {
+		defer colsFirst.H.Close()
+	}
 	for step := 0; step <= len(seq); step++ {
 		if inTx {
 			p.MustOK("exec ROLLBACK")
@@ -338,6 +343,33 @@ func c08Sequence(r *ev.Run, p *Peer, dir string, w, n int, baseName string, base
 			return
 		}
 		freshLow, err := lowDump(fresh.D)
+		// a handle whose FIRST call after every commit is Columns(): the call must not answer from what the
+		// handle remembered (differential: the fresh handle's answer; tables that are gone must be unknown)
+		if colsFirst != nil {
+			fresh.D.RLock()
+			names, _ := fresh.D.Tables()
+			fresh.D.RUnlock()
+			now := map[string]bool{}
+			for _, n := range names {
+				now[n] = true
+				wantCols, werr := fresh.H.Columns(n)
+				gotCols, gerr := colsFirst.H.Columns(n)
+				r.Trans(1)
+				if (werr == nil) != (gerr == nil) || strings.Join(gotCols, ",") != strings.Join(wantCols, ",") {
+					r.Violation("C08:columns-first:"+c08Last(names2(names, seq, step), step), fmt.Sprintf("Columns(%s) as the first call after %v: %v (err=%v); a fresh handle: %v (err=%v)", n, names2(nil, seq, step), gotCols, gerr, wantCols, werr), art)
+					break
+				}
+			}
+			for n := range colsFirstKnew {
+				if !now[n] {
+					if c, err := colsFirst.H.Columns(n); err == nil {
+						r.Violation("C08:columns-first:gone", fmt.Sprintf("Columns(%s) as the first call after %v still answers %v; the table is gone", n, names2(nil, seq, step), c), art)
+					}
+				}
+			}
+			colsFirstKnew = now
+			LittleDump(colsFirst.H, colsFirst.D) // load everything again for the next round
+		}
 		fresh.H.Close()
 		if err != nil {
 			r.Violation("C08:fresh-low-read-error", fmt.Sprintf("fresh handle, low level read after %v: %v", names[:step], err), art)
@@ -406,4 +438,13 @@ func c08Last(names []string, step int) string {
 		return "initial"
 	}
 	return names[step-1]
+}
+
+// names2: the operation names of seq[:step] (first argument unused; kept for call-site symmetry)
+func names2(_ []string, seq []int, step int) []string {
+	out := make([]string, 0, step)
+	for _, o := range seq[:step] {
+		out = append(out, c08Alphabet[o].name)
+	}
+	return out
 }
